@@ -55,6 +55,7 @@ pub struct Case {
 }
 
 fn build_seed(s: &SeedFile, dir: &Scratch, name: &str) -> Result<Vec<u8>, Fail> {
+    let _gate = crate::util::memvid_section();
     let path = dir.path(name);
     let mut mem = Memvid::create(&path).map_err(|e| Fail::new("infra", e.to_string()))?;
     let n = s.docs.len();
@@ -336,7 +337,9 @@ fn proc_io() -> (u64, u64) {
 
 fn run_child(file: &std::path::Path, limit: Duration) -> Result<(String, bool, Option<i32>), Fail> {
     let exe = std::env::current_exe().map_err(|e| Fail::new("infra", e.to_string()))?;
-    let mut child = Command::new(exe).arg("--child-c22").arg(file).stdout(Stdio::piped()).stderr(Stdio::null()).spawn().map_err(|e| Fail::new("infra", e.to_string()))?;
+    let mut cmd = Command::new(exe);
+    cmd.arg("--child-c22").arg(file).stdout(Stdio::piped()).stderr(Stdio::null());
+    let mut child = crate::util::spawn_gated(&mut cmd).map_err(|e| Fail::new("infra", e.to_string()))?;
     let mut out = child.stdout.take().unwrap();
     let reader = std::thread::spawn(move || {
         let mut s = String::new();
